@@ -11,8 +11,13 @@
       - [c_stats]: [n0;n1;n2;n3;total;expected] of a Stats answer; [c_sums]: sums of columns carrying the
         same stamp: equal
       - [c_bad]: malformed / incomplete / filter violating / future answers; [c_races]: race detector
-        reports that are not explained; [c_deadlocks]: go-deadlock reports; [c_crash]. *)
-From LMD Require Export Base.Str C14.Model.
+        reports that are not explained; [c_deadlocks]: go-deadlock reports; [c_crash].
+      - [c_lists]: (served, must, may) per distinct comment / downtime id list of a host or service in an
+        answer (own column, reference column, by-group table; ids of the `_with_info` variants): the ids
+        the backend attached to the object during the whole run up to the answer, and at some time
+        (C14/Lists.v [list_ok]: must <= served <= may; equal when the backend's comments never change):
+        a freshly published data set must already carry its lists. *)
+From LMD Require Export Base.Str C14.Model C14.Lists.
 Open Scope Z_scope.
 
 Record case := mkCase {
@@ -24,7 +29,8 @@ Record case := mkCase {
   c_bad : nat;
   c_races : list str;
   c_deadlocks : nat;
-  c_crash : bool }.
+  c_crash : bool;
+  c_lists : list (list Z * list Z * list Z) }.
 
 Definition uniform (l : list Z) : bool :=
   match l with [] => true | x :: r => forallb (Z.eqb x) r end.
@@ -39,7 +45,7 @@ Definition stats_ok (l : list Z) : bool :=
   end.
 
 (** verdict tags: 1 lock order, 2 torn row, 3 mixed generation/epoch, 4 Stats, 5 sums, 6 malformed,
-    7 race report, 8 deadlock report, 9 crash *)
+    7 race report, 8 deadlock report, 9 crash, 10 comment / downtime list that does not fit the backend *)
 Definition expected (c : case) : list nat :=
   (if forallb increasing (c_orders c) then [] else [1%nat]) ++
   (if forallb uniform (c_rows c) then [] else [2%nat]) ++
@@ -49,7 +55,8 @@ Definition expected (c : case) : list nat :=
   (if Nat.eqb (c_bad c) 0 then [] else [6%nat]) ++
   (match c_races c with [] => [] | _ => [7%nat] end) ++
   (if Nat.eqb (c_deadlocks c) 0 then [] else [8%nat]) ++
-  (if c_crash c then [9%nat] else []).
+  (if c_crash c then [9%nat] else []) ++
+  (if forallb list_ok (c_lists c) then [] else [10%nat]).
 
 Definition check (c : case) : bool := match expected c with [] => true | _ => false end.
 
